@@ -264,6 +264,10 @@ def unit_request(ti, tier="quick"):
                         if got != pins:
                             ok = False
                             why = {"port pins": got, "declared": pins}
+                        elif _port_leaves(port) != _declared_leaves(table, nm):
+                            # ... and carries the declared direction and inversion, single-ended and differential alike
+                            ok = False
+                            why = {"port (kind, direction, inversion)": _port_leaves(port), "declared": _declared_leaves(table, nm)}
                         else:
                             why = None
                     else:
@@ -303,6 +307,37 @@ def _port_pins(port):
     if isinstance(port, io.DifferentialPort):
         return [md.name for md in port.p.metadata] + [md.name for md in port.n.metadata]
     raise TypeError(port)
+
+
+def _declared_leaves(table, name):
+    """reference: per leaf component of a resource, in declared order: (kind, direction, inversion per pin)"""
+    from amaranth.build.dsl import Subsignal, Pins, DiffPairs
+    res = [r for r in table[0] if r.name == name][0]
+    out = []
+    dmap = {"i": "i", "o": "o", "oe": "o", "io": "io"}
+
+    def walk(sub):
+        for io_ in sub.ios:
+            if isinstance(io_, Subsignal):
+                walk(io_)
+            elif isinstance(io_, Pins):
+                out.append(("single", dmap[io_.dir], [bool(io_.invert)] * len(io_.names)))
+            elif isinstance(io_, DiffPairs):
+                out.append(("diff", dmap[io_.dir], [bool(io_.invert)] * len(io_.p.names)))
+    walk(res)
+    return out
+
+
+def _port_leaves(port):
+    from amaranth.lib import io
+    from amaranth.build.res import PortGroup
+    if isinstance(port, PortGroup):
+        out = []
+        for _n, member in vars(port).items():
+            out.extend(_port_leaves(member))
+        return out
+    kind = "single" if isinstance(port, io.SingleEndedPort) else "diff" if isinstance(port, io.DifferentialPort) else type(port).__name__
+    return [(kind, port.direction.value, [bool(b) for b in port.invert])]
 
 
 def unit_connectors():
